@@ -1319,6 +1319,15 @@ MakeScenario()
   s.on_point = OnPoint;
   s.name_of = NameOf;
   s.outcome = Outcome;
+  // a deadlock while no grant is registered at all: every guard that owned a grant has been destroyed (its
+  // release call performed its write), yet a request cannot be served -- a release that did not release (C07)
+  // as much as a lost hand-off (C02)
+  s.deadlock_tags = []() -> std::string {
+    if (!GH) return "";
+    for (auto &p : GH->phases)
+      if (p.active) return "";
+    return "C02,C07";
+  };
   return s;
 }
 
